@@ -4,7 +4,7 @@ A check must never exit 1 on these (0 = still proved, 2 = undecided/lost anchor 
 import subprocess, sys, os, json, glob
 REPO = os.environ.get('RIP_REPO', '/repo')      # a snapshot of the repository when run in the background (vp run --with-repo)
 HERE = os.path.dirname(os.path.dirname(os.path.abspath(__file__)))
-root = sys.argv[1]; props = sys.argv[2].split(',') if len(sys.argv) > 2 else None
+root = os.path.abspath(sys.argv[1]); props = sys.argv[2].split(',') if len(sys.argv) > 2 else None
 out = {}
 for d in sorted(glob.glob(os.path.join(root, '*/patch.diff'))):
     name = os.path.relpath(os.path.dirname(d), root)
